@@ -22,10 +22,10 @@ def impl_case(case):
         del r["text"]
     return r
 
-def gen_cases(rng, n, allow_zero=True):
+def gen_cases(rng, n, allow_zero=True, density=None):
     cases = []
     for i in range(n):
-        prog = pepper.CompGen(rng, name="prog", allow_zero=allow_zero and rng.random() < 0.8).build()
+        prog = pepper.CompGen(rng, name="prog", allow_zero=allow_zero and rng.random() < 0.8, density=density).build()
         cases.append({"prog": prog, "text": pepper.comp_text(rng, prog)})
     return cases
 
